@@ -516,10 +516,12 @@ class World20:
                 continue
             V = p['mv']
             ref = self.model[mvid]
+            intdt = self.cfg['mvs'][mvid].get('cont') == 'nd' and 'int' in str(self.cfg['mvs'][mvid].get('dtype'))
             for k in list(ref):
                 ci = self.cidx[k]
                 if ci < len(V):
-                    ref[k] = V[ci]
+                    # an integer ndarray can only hold the integer part in place (numpy assignment semantics)
+                    ref[k] = int(V[ci]) if intdt and V[ci] == V[ci] else V[ci]
 
     # ---- main loop ---------------------------------------------------------------------------------------
     def run(self):
@@ -596,7 +598,10 @@ class World20:
                     self.schedule(t + FRAME, 'frame', None)
             elif kind == 'drag':
                 self.stats['drags'] += 1
-                if self.fe.rendered and self.fe.drag(payload['slot'], payload['changes']):
+                slot = payload.get('slot')
+                if 'place' in payload:      # the point at this place of the decoded subjects
+                    slot = self.fe.idxs.index(payload['place']) if self.fe.rendered and payload['place'] in self.fe.idxs else None
+                if slot is not None and self.fe.rendered and self.fe.drag(slot, payload['changes']):
                     self.stats['drags_applied'] += 1
         if not self.violations:
             self.check_liveness()
